@@ -223,6 +223,7 @@ func c03SchedCase(t *T) {
 		reqs = append(reqs, q)
 	}
 	var word []int
+	t.AutoSample()
 	t.Describe(func() any {
 		d := p.Describe().(map[string]any)
 		var rs []string
@@ -389,6 +390,9 @@ func c03RunSchedule(t *T, p *Program, reqs []c09Req, solo []string, word []int) 
 	}
 	if p.CacheCap >= 0 {
 		t.Count("sched.cache_on", 1)
+	}
+	for i := range reqs {
+		t.Tracef("request %d (%s) under schedule %v: %s", i, reqs[i], word, recs[i].Outcome())
 	}
 	for i := range reqs {
 		if panicked[i] {
